@@ -182,3 +182,84 @@ package asp
 //@   requires lhs != nil && rhs != nil
 //@   requires (lhs.FString != nil || len(lhs.String) >= 2) && (rhs.FString != nil || len(rhs.String) >= 2)
 //@   property C19
+
+// The lexer reads a buffer that newLexer terminates with two NUL bytes (and, before them, a newline). lexOK is
+// the representation invariant that makes every `l.bytes[l.pos]` / `l.bytes[l.pos+1]` read in bounds: the
+// position is at or before the first of the two terminators, and no scanning loop runs past a NUL.
+//@ spec lexOK(l *lex) bool = l != nil && len(l.bytes) >= 2 && l.bytes[len(l.bytes)-1] == 0 && l.bytes[len(l.bytes)-2] == 0 && \
+//@      (len(l.bytes) >= 3 ==> l.bytes[len(l.bytes)-3] == 10) && 0 <= l.pos && l.pos <= len(l.bytes)-2 && len(l.indents) >= 1 && l.indents[0] == 0 && l.indent >= 0
+//@ func (lex).stripSpaces
+//@   requires lexOK(l)
+//@   modifies l
+//@   property C19
+//@   invariant "loop#1" in_bounds: lexOK(l) && l.bytes == old(l.bytes) && l.indents == old(l.indents)
+//@   ensures still_ok [C19]: lexOK(l) && l.bytes == old(l.bytes) && l.bytes[l.pos] != 32 && l.indents == old(l.indents)
+//@ func (lex).AssignFollows
+//@   requires lexOK(l)
+//@   modifies l
+//@   property C19
+//@   ensures still_ok [C19]: lexOK(l)
+//@ func (lex).consumeInteger
+//@   requires lexOK(l)
+//@   modifies l
+//@   property C19
+//@   invariant "loop#1" in_bounds: lexOK(l) && l.bytes == old(l.bytes) && len(value) >= 1 && l.indents == old(l.indents) && next == l.bytes[l.pos]
+//@   ensures still_ok [C19]: lexOK(l) && l.bytes == old(l.bytes)
+// A scanner that has consumed the first terminator has failed (`fail` panics with a positioned error) before
+// it reads again; lexAt is lexOK with the position allowed one past the first terminator.
+//@ spec lexAt(l *lex) bool = l != nil && len(l.bytes) >= 2 && l.bytes[len(l.bytes)-1] == 0 && l.bytes[len(l.bytes)-2] == 0 && \
+//@      (len(l.bytes) >= 3 ==> l.bytes[len(l.bytes)-3] == 10) && 0 <= l.pos && l.pos <= len(l.bytes)-1 && len(l.indents) >= 1 && l.indents[0] == 0 && l.indent >= 0
+//@ assume func fail
+//@   modifies nothing
+//@   ensures never_returns: false
+//@ func (lex).fail
+//@   requires l != nil
+//@   modifies nothing
+//@   opt panics=allowed
+//@   ensures never_returns [C19]: false
+//@ func (lex).consumeString
+//@   requires lexOK(l) && (quote == 34 || quote == 39)
+//@   modifies l
+//@   property C19
+//@   opt panics=allowed
+//@   invariant "loop#1" in_bounds: lexOK(l) && l.bytes == old(l.bytes) && len(value) >= 1 && l.indents == old(l.indents) && \
+//@      (escaped ==> l.pos >= 1 && l.bytes[l.pos-1] == 92)
+//@   ensures still_ok [C19]: lexOK(l) && l.bytes == old(l.bytes)
+//@ func (lex).consumePossiblyTripleQuotedString
+//@   requires lexOK(l) && (quote == 34 || quote == 39)
+//@   modifies l
+//@   property C19
+//@   opt panics=allowed
+//@   ensures still_ok [C19]: lexOK(l) && l.bytes == old(l.bytes)
+// utf8.DecodeRune consumes between 1 and len(p) bytes of a non-empty buffer, at most 4 (assumed).
+//@ func (lex).consumeIdent
+//@   requires lexOK(l)
+//@   modifies l
+//@   property C19
+//@   opt panics=allowed
+//@   invariant "loop#1" in_bounds: lexOK(l) && l.bytes == old(l.bytes) && l.indents == old(l.indents)
+//@   ensures still_ok [C19]: lexOK(l) && l.bytes == old(l.bytes)
+//
+// nextToken: from a well-formed lexer state it never reads outside the buffer; it returns with a well-formed
+// state again unless it returns the end-of-file token (after which the position may sit on the second
+// terminator: lexAt) — so the token stream up to and including EOF is produced without any internal error.
+//@ func (lex).nextToken
+//@   requires lexOK(l)
+//@   modifies l
+//@   property C19
+//@   opt panics=allowed
+//@   invariant "loop#1" in_bounds: lexOK(l) && l.bytes == old(l.bytes) && indent >= 0
+//@   invariant "loop#2" unindenting: lexOK(l) && l.bytes == old(l.bytes)
+//@   invariant "loop#3" comment: lexOK(l) && l.bytes == old(l.bytes)
+//@   ensures ok_unless_eof [C19]: l.bytes == old(l.bytes) && lexAt(l) && (result.Type != EOF ==> lexOK(l))
+//@ func (lex).Next
+//@   requires lexOK(l)
+//@   modifies l
+//@   property C19
+//@   opt panics=allowed
+//@   ensures ok_unless_eof [C19]: l.bytes == old(l.bytes) && lexAt(l) && (l.next.Type != EOF ==> lexOK(l))
+//@ func newLexer
+//@   property C19
+//@   opt panics=allowed
+//@   invariant "loop#1" skipping_blank_lines: lexAt(l) && (l.next.Type != EOF ==> lexOK(l))
+//@   ensures well_formed [C19]: lexAt(result) && (result.next.Type != EOF ==> lexOK(result))
